@@ -23,15 +23,15 @@ Definition empty_window (w : window) : bool := match fst w with Some l => l =? 0
 
 End More.
 
-(* Oracle: OraBuilder.SELECT turns the LIMIT section (limit, offset) into nested selects on ROWNUM.  Python truthiness decides:
-   `if not limit and not offset: <nothing>  elif not offset: ROWNUM <= limit  else: [ROWNUM <= limit + offset] and "row-num" > offset` *)
+(* Oracle: OraBuilder.SELECT turns the LIMIT section (limit, offset) into nested selects on ROWNUM:
+   `if limit is None and not offset: <nothing>  elif not offset: ROWNUM <= limit  else: [ROWNUM <= limit + offset] and "row-num" > offset` *)
 Inductive ora_shape := OraPlain | OraLe (n : Z) | OraWin (le : option Z) (gt : Z).
 Definition falsy (x : option Z) : bool := match x with None => true | Some v => v =? 0 end.
 Definition ora_select (sec : option (option Z * option Z)) : ora_shape :=
   match sec with
   | None => OraPlain
   | Some (l, o) =>
-      if falsy l && falsy o then OraPlain
+      if (match l with None => true | Some _ => false end) && falsy o then OraPlain
       else if falsy o then OraLe (match l with Some v => v | None => 0 end)
       else match o with
            | Some ov => OraWin (match l with Some lv => Some (lv + ov) | None => None end) ov
